@@ -102,7 +102,7 @@ Dimension sweeps (tools/SWEEP_BRIEF.md; same clauses and obligations, inputs var
   not applicable    competitor sets (no optimality claim beyond the GLS solution, which is computed exactly), files.  Not demanded:
                     Python lists as weights or RDM stacks, `all_patterns` other than a list (documented as list).
   a noise-ceiling case whose pooled training RDM is constant on the remaining entries (correlation 0/0 by definition) is not judged.
-  PENDING TRIAGE (fail on the unchanged tree; registrations behind `if False:  # pending triage: <class>` in `_sweeps`)
+  PENDING TRIAGE (fail on the unchanged tree; registrations behind `if False:  # pending triage: <class>` in `_sweeps`)   [TRIAGED since: every class repaired in /repo, recorded as open finding, or dropped -- DESIGN.md 10.10]
     'units-tiny,whitened-pooling'  util.pooling.pool_rdm(cosine_cov / corr_cov) of RDMs in units of 1e-12 returns inf / NaN
     'units-tiny,whitened-fit'      fit_regress / fit_regress_nn (cosine_cov / corr_cov) with data RDMs times 1e-12 (NaN / zero weights /
                                    ValueError) or model RDMs times 1e-10 (LinAlgError); 7e-4 off already at 1e-6
